@@ -101,10 +101,10 @@ func isPureSimple(fn *ssa.Function, depth int, seen map[*ssa.Function]bool) bool
 
 type pureExtern func(x *Exec, f *frame, m int, args []Val, in ssa.Value) (Val, bool)
 
-var pureExterns map[string]pureExtern
+var pureExterns = map[string]pureExtern{}
 
 func init() {
-	pureExterns = map[string]pureExtern{
+	for k, v := range map[string]pureExtern{
 		"strconv.FormatInt": func(x *Exec, f *frame, m int, a []Val, in ssa.Value) (Val, bool) {
 			if b, ok := litVal(a[1].T); !ok || b.Int64() != 10 {
 				return Val{}, false
@@ -149,9 +149,9 @@ func init() {
 			x.assumed["time.Time.UnixNano: value within int64 range (dates 1678..2262)"] = true
 			return Val{T: sx("wrapS64", x.timeNS(a[0].T))}, true
 		},
-		"math.Float64bits": nil,
+	} {
+		pureExterns[k] = v
 	}
-	delete(pureExterns, "math.Float64bits")
 }
 
 func (x *Exec) useLower() {
